@@ -338,6 +338,11 @@ func (k Keeper) ResetMetaDuration(ctx sdk.Context, meta *types.Metadata) {
 		}
 	}
 
+	if expiredHeight < meta.CreatedAt {
+		// no completed shard left (force-push before the new shard is fulfilled):
+		// do not let the unsigned duration wrap around, the caller extends it
+		expiredHeight = meta.CreatedAt
+	}
 	newDuration := expiredHeight - meta.CreatedAt
 
 	if meta.Duration != newDuration {
